@@ -643,6 +643,8 @@ impl ClusterHandler for NocHandler {
 
         let mut updated_fab_idx = None;
 
+        let mut persist = FabricPersist::new(ctx.kv());
+
         let status = NodeOperationalCertStatusEnum::map(ctx.exchange().with_state(|state| {
             let sess = ctx.exchange().id().session(&mut state.sessions);
 
@@ -671,8 +673,17 @@ impl ClusterHandler for NocHandler {
 
             updated_fab_idx = Some(fabric.fab_idx().get());
 
+            // The label is part of the persisted fabric record. As with the other fabric-scoped
+            // mutations, a fabric which is still under the fail-safe is persisted by
+            // `CommissioningComplete` (or rolled back when the fail-safe expires)
+            if !state.failsafe.is_armed_for(fab_idx.get()) {
+                persist.store(fabric)?;
+            }
+
             Ok(())
         }))?;
+
+        persist.run()?;
 
         // UpdateFabricLabel mutates the Fabrics list
         ctx.notify_own_cluster_changed();
